@@ -129,7 +129,7 @@ fn race_codes(ctx: &Ctx) -> PResult {
                     ensure!((1..=9999).contains(&id) , "race-code-range", "race code {} does not fit the 4-digit path field", id);
                     ctx.class("triple:valid");
                     if ctx.want_sample() && id % 400 == 101 {
-                        ctx.sample(json!({"job": "race-codes", "race": format!("{:?}", r), "tribe": format!("{:?}", t), "gender": format!("{:?}", g), "code": id, "skeleton": race::build_skeleton_path(r, t, g.clone())}));
+                        ctx.sample(json!({"job": "race-codes", "race": format!("{:?}", r), "tribe": format!("{:?}", t), "gender": format!("{:?}", g), "code": id, "skeleton": guard("build_skeleton_path", || race::build_skeleton_path(r, t, g.clone())).ok()}));
                     }
                     ctx.nontrivial(format!("triple{:?}{:?}{:?}", r, t, g).as_bytes());
                 } else {
@@ -158,6 +158,10 @@ fn equipment_paths(slot: u8, lo: u32, hi: u32, ctx: &Ctx) -> PResult {
             if let Some(prev) = seen.insert(p.clone(), (code, id)) {
                 ensure_eq!(prev, (code, id), "equipment-path-collision", "path {} built from different inputs", p);
             }
+            // the file name of every body type reads back as (id, slot)
+            let fname = &p[p.rfind('/').map(|i| i + 1).unwrap_or(0)..];
+            let back = guard("deconstruct_equipment_path", || equipment::deconstruct_equipment_path(fname))?;
+            ensure!(matches!(&back, Some((bid, bslot)) if *bid == id as i32 && bslot == slot_v), "deconstruct-differs", "deconstruct_equipment_path({}) = {:?}, built from ({}, {:?}) for {:?}/{:?}/{:?}", fname, back, id, slot_v, r, t, g);
             ctx.eval();
         }
         // read back id and slot from the file name
@@ -170,7 +174,7 @@ fn equipment_paths(slot: u8, lo: u32, hi: u32, ctx: &Ctx) -> PResult {
             None => return fail("deconstruct-none", format!("deconstruct_equipment_path({}) = None", name)),
         }
         // also through the file name of a built path with a 4-digit race code
-        let built = equipment::build_equipment_path(id as i32, Race::Viera, Tribe::Veena, Gender::Female, slot_v.clone());
+        let built = guard("build_equipment_path", || equipment::build_equipment_path(id as i32, Race::Viera, Tribe::Veena, Gender::Female, slot_v.clone()))?;
         let fname = built.rsplit('/').next().unwrap().to_string();
         let back = guard("deconstruct_equipment_path", || equipment::deconstruct_equipment_path(&fname))?;
         ensure!(matches!(&back, Some((bid, bslot)) if *bid == id as i32 && bslot == slot_v), "deconstruct-differs", "deconstruct_equipment_path({}) = {:?}", fname, back);
